@@ -597,14 +597,21 @@ class Zygote:
 class Pool:
     """N fork servers behind a thread pool: pool.map(fn, items) runs fn(zygote_run, item) concurrently"""
 
-    def __init__(self, n, preload=(), env=None):
+    def __init__(self, n, preload=(), env=None, fork=False):
         import queue
-        self.n, self.preload, self.env = n, tuple(preload), env
+        self.n, self.preload, self.env, self.fork = n, tuple(preload), env, fork
         self.free = queue.Queue()
         self.all = []
 
     def run(self, job, timeout=600, retries=1):
         import queue
+        if not self.fork:   # one fresh interpreter per job (robust; the fork server saves the import time but a fork of a
+            # process that has imported jax — 30 idle threads — was seen to hang once under heavy load)
+            for attempt in range(retries + 1):
+                rc, err = run_worker(job, timeout=timeout, env=self.env)
+                if rc != -9:
+                    break
+            return rc, err
         for attempt in range(retries + 1):
             try:
                 z = self.free.get_nowait()
